@@ -453,7 +453,7 @@ impl Property for C04 {
     }
     fn run_tape(&self, tape: &[u8], ctx: &mut Ctx) -> Result<(), Failure> {
         let mut t = Tape::new(tape);
-        let p = gen_packet(&mut t);
+        let p = gen_packet_big(&mut t);
         if ctx.counting {
             let r = refdec::decode(p.start, &p.bytes, false);
             classify("", &p, &r, ctx);
